@@ -559,6 +559,16 @@ impl Scripted for Arc<Mutex<OracleNet>> {
                 let (n4, n6) = node_lists(&me, &ih);
                 let token = me.token_for(idx, d.src.ip());
                 let values: Vec<SocketAddr> = me.nodes[idx].peers.get(&ih).cloned().unwrap_or_default().into_iter().filter(|p| p.is_ipv4() == v4).collect();
+                // a hostile node's genuine answer also names one id twice, at two unreachable addresses, farther from the target
+                // than anything else (the complement of the target)
+                let n4 = if mode == Mode::Hostile && v4 {
+                    let mut far = ih;
+                    for b in far.iter_mut() { *b = !*b; }
+                    let mut l = n4;
+                    l.push((far, (std::net::Ipv4Addr::new(10, 250, 1, (idx % 200) as u8 + 1), 1).into()));
+                    l.push((far, (std::net::Ipv4Addr::new(10, 250, 2, (idx % 200) as u8 + 1), 1).into()));
+                    l
+                } else { n4 };
                 let mut out = reply(benc::r_generic(&t, &my_id, Some(&token), &values, &n4, &n6));
                 if mode == Mode::Hostile {
                     let bogus = |n: u8| -> Vec<SocketAddr> { vec![(std::net::Ipv4Addr::new(66, 66, idx as u8, n), 6000 + n as u16).into()] };
